@@ -268,7 +268,8 @@ def judge_case(d, obs=None, deep=True):
     """evaluates the text of C09 on the implementation; -> list of violated clauses"""
     bad = _judge_case(d, obs, deep)
     if bad and rb.inf_only(d["feat"]):
-        bad = ["inf_only: " + b for b in bad]
+        # regression marker of /repo commit b2b5cba: only for the clauses that repair was about
+        bad = ["inf_only: " + b if ("not accepted" in b or "NaN edges" in b) else b for b in bad]
     return bad
 
 
@@ -534,8 +535,8 @@ def minimise(d, fails):
     return cur
 
 
-def tag(d):
-    if rb.inf_only(d["feat"]):
+def tag(d, bad=()):
+    if rb.inf_only(d["feat"]) and any(b.startswith("inf_only: ") for b in bad):
         d = json.loads(json.dumps(d))
         d["inf_only"] = True
         d["feat"]["inf_only"] = True
@@ -543,19 +544,27 @@ def tag(d):
 
 
 def report(found, d, bad, obs):
-    d = tag(d) if bad else d
+    d = tag(d, bad) if bad else d
     for cl in bad:
         k = clause_class(cl)
         if k not in found or len(d["y"]) < len(found[k]["case"]["y"]):
-            found[k] = dict(case=d, clauses=bad, observed=obs if obs[0] == "err" else ["ok", [t[:6] for t in obs[1]]])
+            found[k] = dict(case=d, clauses=bad, observed=obs if obs[0] != "ok" else ["ok", [t[:6] for t in obs[1]]])
 
 
 def finalise(found):
-    out = []
+    out, seen = [], set()
     for k, f in found.items():
-        m = minimise(f["case"], lambda c: k in {clause_class(x) for x in judge_case(c, deep=True)})
+        base = {x: v for x, v in f["case"].items() if x != "inf_only"}
+        if base.get("feat"):
+            base["feat"] = {x: v for x, v in base["feat"].items() if x != "inf_only"}
+        m = minimise(base, lambda c: k in {clause_class(x) for x in judge_case(c, deep=True)})
+        key = json.dumps(m, sort_keys=True)
+        if key in seen:
+            continue
+        seen.add(key)
         o = run_impl(m)
-        out.append(dict(case=tag(m), clauses=judge_case(m, o), observed=o if o[0] == "err" else ["ok", [t[:6] for t in o[1]]]))
+        cl = judge_case(m, o)
+        out.append(dict(case=tag(m, cl), clauses=cl, observed=o if o[0] != "ok" else ["ok", [t[:6] for t in o[1]]]))
     return out
 
 
